@@ -648,6 +648,29 @@ func c06LoopShape(c *Ctx, r *Report, an *Anchors, p *Prov) {
 					if calleeKey(&x.Call) == c.pkgFn("RedactMongoLog") {
 						continue
 					}
+					if g := c.staticPkgCallee(&x.Call); g != nil && len(g.Params) == 1 && isStringType(g.Params[0].Type()) && g.Signature.Results().Len() == 1 && isBoolType(g.Signature.Results().At(0).Type()) {
+						// a pure predicate asked about the raw line (a pre-filter): admissible when it
+						// never says yes to a JSON object - interpreted on probes, purepred.go
+						if okP, whyP := prefilterNeverSkipsObjects(g); okP {
+							onlyBranches := true
+							for _, pu := range referrers(x) {
+								switch pu.(type) {
+								case *ssa.If, *ssa.DebugRef:
+								case *ssa.UnOp:
+								default:
+									onlyBranches = false
+								}
+							}
+							if onlyBranches {
+								continue
+							}
+							bad = append(bad, "the verdict of "+g.Name()+" is used for more than a branch at "+c.InstrPos(use))
+							continue
+						} else {
+							bad = append(bad, "passed to "+g.Name()+" at "+c.InstrPos(use)+" ("+whyP+")")
+							continue
+						}
+					}
 					if calleeKey(&x.Call) == "builtin len" {
 						// len(line) may only feed tests of the line for emptiness
 						okLen := true
@@ -821,6 +844,18 @@ func c06LoopShape(c *Ctx, r *Report, an *Anchors, p *Prov) {
 			}
 			if just == "" && hasLineEmpty {
 				just = "empty-line"
+			}
+			if just == "" {
+				// skipped by a pre-filter that never says yes to a JSON object
+				for _, f := range facts {
+					if pc, ok := peel(f.cond).(*ssa.Call); ok && f.pol {
+						if g := c.staticPkgCallee(&pc.Call); g != nil && len(g.Params) == 1 && isStringType(g.Params[0].Type()) && len(pc.Call.Args) == 1 && isScannedLine(pc.Call.Args[0]) {
+							if okP, _ := prefilterNeverSkipsObjects(g); okP {
+								just = "prefilter-not-a-json-object"
+							}
+						}
+					}
+				}
 			}
 			if just != "" {
 				nJustified++
